@@ -733,7 +733,22 @@ pub fn classify_death(status: &std::process::ExitStatus, stderr_tail: &str, time
     )
 }
 
-const HANG_BUDGET_S: u64 = 30;
+/// A step is declared hung when the child has burnt this much *CPU time* without reporting
+/// progress. CPU time, not wall time: a loaded machine slows a child down without making it spin,
+/// and a false "hang" would be an alarm the code did not earn. (The library is single-threaded
+/// computation: a child that makes no progress is spinning.) The wall-clock limit is a backstop only.
+const HANG_BUDGET_S: u64 = 60;
+const HANG_WALL_BACKSTOP_S: u64 = 1800;
+
+/// user+system CPU time of a process, in clock ticks (100 per second on Linux)
+fn proc_cpu_ticks(pid: i32) -> Option<u64> {
+    let s = std::fs::read_to_string(format!("/proc/{pid}/stat")).ok()?;
+    // fields after the parenthesised command name
+    let rest = &s[s.rfind(')')? + 2..];
+    let f: Vec<&str> = rest.split_whitespace().collect();
+    // rest[0] is field 3 (state); utime = field 14, stime = field 15
+    Some(f.get(11)?.parse::<u64>().ok()? + f.get(12)?.parse::<u64>().ok()?)
+}
 
 /// hangs seen in this part; after a few the rest of the batch is abandoned (the violation is
 /// recorded; waiting a full hang budget for thousands of runs would only delay the report)
@@ -809,15 +824,18 @@ fn supervise_range(
             std::thread::spawn(move || {
                 let mut last = 0u64;
                 let mut idle = 0u64;
+                let mut cpu_at_progress = proc_cpu_ticks(pid).unwrap_or(0);
                 while !done.load(Ordering::Relaxed) {
                     std::thread::sleep(std::time::Duration::from_millis(250));
                     let p = progress.load(Ordering::Relaxed);
+                    let cpu = proc_cpu_ticks(pid).unwrap_or(cpu_at_progress);
                     if p != last {
                         last = p;
                         idle = 0;
+                        cpu_at_progress = cpu;
                     } else {
                         idle += 1;
-                        if idle > HANG_BUDGET_S * 4 {
+                        if cpu.saturating_sub(cpu_at_progress) > HANG_BUDGET_S * 100 || idle > HANG_WALL_BACKSTOP_S * 4 {
                             timed_out.store(true, Ordering::Relaxed);
                             unsafe {
                                 libc::kill(pid, libc::SIGKILL);
@@ -987,12 +1005,13 @@ pub fn exec_script_class(sc: &dyn DynScenario, script: &ScriptJson, scratch: &st
             match child.try_wait() {
                 Ok(Some(_)) => break,
                 Ok(None) => {
-                    if start.elapsed().as_secs() > HANG_BUDGET_S {
+                    let cpu = proc_cpu_ticks(child.id() as i32).unwrap_or(0);
+                    if cpu > HANG_BUDGET_S * 100 || start.elapsed().as_secs() > HANG_WALL_BACKSTOP_S {
                         timed_out = true;
                         let _ = child.kill();
                         break;
                     }
-                    std::thread::sleep(std::time::Duration::from_millis(2));
+                    std::thread::sleep(std::time::Duration::from_millis(5));
                 }
                 Err(e) => return Err(e.to_string()),
             }
